@@ -594,3 +594,19 @@ M('c17b-tail-check-once', 'C17', 'break', UT,
 M('c17b-tail-check-for-loop-keep', 'C17', 'keep', UT,
   '    while (pos < len) {\n        if (!htp_is_lws(data[pos])) {\n            return -1002;\n        }\n\n        pos++;\n    }\n\n    return r;',
   '    for (; pos < len; pos++) {\n        if (!htp_is_lws(data[pos])) return -1002;\n    }\n\n    return r;')
+
+# ---------------- C13.d / C14.g (the repaired defects D29 / D28 must be reported again if they return)
+M('c13d-bytes-after-bracket-dropped', 'C13', 'break', UT,
+  '                        hostname_len = m - hostname_start;\n                    }\n\n                    (*uri)->hostname = bstr_dup_mem(hostname_start, hostname_len);',
+  '                    }\n\n                    (*uri)->hostname = bstr_dup_mem(hostname_start, rest_start - hostname_start);', 'C13.d')
+M('c13d-credentials-username-start-off', 'C13', 'break', UT,
+  '                    (*uri)->username = bstr_dup_mem(credentials_start, m - credentials_start);', '                    (*uri)->username = bstr_dup_mem(credentials_start + 1, m - credentials_start - 1);', 'C13.d')
+M('c13d-port-split-rewritten-keep', 'C13', 'keep', UT,
+  '                    size_t port_len = hostname_len - (m - hostname_start) - 1;\n                    hostname_len = hostname_len - port_len - 1;',
+  '                    size_t port_len = hostname_len - (m - hostname_start) - 1;\n                    hostname_len = m - hostname_start;')
+M('c14g-assembled-line-keeps-ending', 'C14', 'break', 'htp/htp_multipart.c',
+  '                        // The line was assembled from pieces; drop its line ending too.\n                        bstr_adjust_len(line, len);\n                        part->parser->pending_header_line = line;',
+  '                        part->parser->pending_header_line = line;', 'C14.g')
+M('c14g-kept-copy-uses-untrimmed-length', 'C14', 'break', 'htp/htp_multipart.c',
+  '                        part->parser->pending_header_line = bstr_dup_mem(data, len);\n                        if (part->parser->pending_header_line == NULL) return HTP_ERROR;\n                    }\n                } else {',
+  '                        part->parser->pending_header_line = bstr_dup_mem(data, part->len);\n                        if (part->parser->pending_header_line == NULL) return HTP_ERROR;\n                    }\n                } else {', 'C14.g')
